@@ -484,6 +484,12 @@ func run_{{SFX}}(t *testing.T) {
 	runTB_{{SFX}}(t, func(name string, f func(t *testing.T)) { t.Run(name, f) })
 }
 
+// runB: the same interpreter driven by a benchmark handle (go test -bench): sub-nodes run
+// as sub-benchmarks.
+func runB_{{SFX}}(b *testing.B) {
+	runTB_{{SFX}}(b, func(name string, _ func(t *testing.T)) { b.Run(name, runB_{{SFX}}) })
+}
+
 func runTB_{{SFX}}(t testing.TB, sub func(name string, f func(t *testing.T))) {
 	name := t.Name()
 	vlog(map[string]any{"ev": "enter", "test": name})
